@@ -551,3 +551,192 @@ pub fn finish(ctx: &Ctx, mut res: RunResult, report: Report) -> i32 {
     println!("HELD property={} (on what was observed)", ctx.prop);
     0
 }
+
+// ------------------------------------------------------------------------------------------------
+// Sharded execution in worker subprocesses (aborts, stack overflows and process-global state such
+// as the scanner cache are observed per process)
+// ------------------------------------------------------------------------------------------------
+
+pub type CaseFn = fn(&mut Rng, u64, &mut Stats) -> CaseOutcome;
+
+fn stats_to_json(s: &Stats) -> Value {
+    json!({
+        "evaluations": s.evaluations,
+        "skipped": s.skipped,
+        "counters": s.counters,
+        "distinct": s.distinct.iter().collect::<Vec<_>>(),
+        "samples": s.samples,
+    })
+}
+
+fn stats_from_json(v: &Value) -> Stats {
+    let mut s = Stats::default();
+    s.evaluations = v["evaluations"].as_u64().unwrap_or(0);
+    s.skipped = v["skipped"].as_u64().unwrap_or(0);
+    if let Some(m) = v["counters"].as_object() {
+        for (k, x) in m {
+            s.counters.insert(k.clone(), x.as_u64().unwrap_or(0));
+        }
+    }
+    if let Some(a) = v["distinct"].as_array() {
+        for x in a {
+            if let Some(h) = x.as_u64() {
+                s.distinct.insert(h);
+            }
+        }
+    }
+    if let Some(a) = v["samples"].as_array() {
+        s.samples = a.clone();
+    }
+    s
+}
+
+/// Body of a worker process: runs cases from..to of a stream single-threaded and reports on stdout.
+pub fn worker_main(seed: u64, stream: u64, from: u64, to: u64, f: CaseFn) -> i32 {
+    use std::io::Write;
+    let out = std::io::stdout();
+    let mut stats = Stats::default();
+    let mut violations: Vec<Value> = vec![];
+    let mut harness_errors: Vec<String> = vec![];
+    for i in from..to {
+        {
+            let mut o = out.lock();
+            let _ = writeln!(o, "B {}", i);
+            let _ = o.flush();
+        }
+        let mut rng = Rng::for_case(seed, stream, i);
+        let r = catch_unwind(AssertUnwindSafe(|| f(&mut rng, i, &mut stats)));
+        match r {
+            Ok(CaseOutcome::Ok) => stats.evaluations += 1,
+            Ok(CaseOutcome::Skipped) => stats.skipped += 1,
+            Ok(CaseOutcome::Violated(mut v)) => {
+                stats.evaluations += 1;
+                if let Value::Object(m) = &mut v.case {
+                    m.insert("stream".into(), json!(stream));
+                    m.insert("index".into(), json!(i));
+                    m.insert("seed".into(), json!(seed));
+                }
+                violations.push(json!({"what": v.what, "signature": v.signature, "case": v.case}));
+                if violations.len() >= MAX_VIOLATIONS_KEPT {
+                    let mut o = out.lock();
+                    let _ = writeln!(o, "E {}", i);
+                    break;
+                }
+            }
+            Err(_) => {
+                let msg = LAST_PANIC.with(|p| p.borrow_mut().take()).unwrap_or_default();
+                harness_errors.push(format!("harness panic in stream {} case {}: {}", stream, i, msg));
+                break;
+            }
+        }
+        let mut o = out.lock();
+        let _ = writeln!(o, "E {}", i);
+    }
+    let mut o = out.lock();
+    let _ = writeln!(
+        o,
+        "R {}",
+        json!({"stats": stats_to_json(&stats), "violations": violations, "harness_errors": harness_errors})
+    );
+    let _ = o.flush();
+    0
+}
+
+/// Runs cases 0..n of `stream` in `shards` worker processes of `per_process` cases each.
+pub fn run_cases_subprocess(ctx: &Ctx, stream: u64, n_cases: u64, per_process: u64) -> RunResult {
+    let exe = std::env::current_exe().expect("current exe");
+    let mut ranges: Vec<(u64, u64)> = vec![];
+    let mut a = 0;
+    while a < n_cases {
+        let b = (a + per_process).min(n_cases);
+        ranges.push((a, b));
+        a = b;
+    }
+    let next = AtomicUsize::new(0);
+    let result = Mutex::new(RunResult::new());
+    let stop = AtomicBool::new(false);
+    std::thread::scope(|s| {
+        for _ in 0..ctx.threads.max(1) {
+            s.spawn(|| loop {
+                if stop.load(Ordering::Relaxed) {
+                    break;
+                }
+                let k = next.fetch_add(1, Ordering::Relaxed);
+                if k >= ranges.len() {
+                    break;
+                }
+                let (from, to) = ranges[k];
+                let output = std::process::Command::new(&exe)
+                    .arg("worker")
+                    .arg(&ctx.prop)
+                    .arg(stream.to_string())
+                    .arg(from.to_string())
+                    .arg(to.to_string())
+                    .env("VERIF_SEED", ctx.seed.to_string())
+                    .env("VERIF_TIER", ctx.tier.name())
+                    .stderr(std::process::Stdio::piped())
+                    .output();
+                let mut local = RunResult::new();
+                match output {
+                    Err(e) => local.harness_errors.push(format!("cannot spawn worker: {}", e)),
+                    Ok(out) => {
+                        let text = String::from_utf8_lossy(&out.stdout);
+                        let mut open: Option<u64> = None;
+                        let mut got_result = false;
+                        for line in text.lines() {
+                            if let Some(r) = line.strip_prefix("B ") {
+                                open = r.trim().parse().ok();
+                            } else if line.starts_with("E ") {
+                                open = None;
+                            } else if let Some(r) = line.strip_prefix("R ") {
+                                if let Ok(v) = serde_json::from_str::<Value>(r) {
+                                    got_result = true;
+                                    local.stats = stats_from_json(&v["stats"]);
+                                    if let Some(a) = v["violations"].as_array() {
+                                        for x in a {
+                                            local.violations.push(Violation {
+                                                what: x["what"].as_str().unwrap_or("").to_string(),
+                                                signature: x["signature"].as_str().unwrap_or("").to_string(),
+                                                case: x["case"].clone(),
+                                            });
+                                        }
+                                    }
+                                    if let Some(a) = v["harness_errors"].as_array() {
+                                        for x in a {
+                                            local.harness_errors.push(x.as_str().unwrap_or("").to_string());
+                                        }
+                                    }
+                                }
+                            }
+                        }
+                        if !got_result {
+                            use std::os::unix::process::ExitStatusExt;
+                            let how = match (out.status.code(), out.status.signal()) {
+                                (_, Some(sig)) => format!("killed by signal {}", sig),
+                                (Some(c), _) => format!("exited with status {}", c),
+                                _ => "ended abnormally".to_string(),
+                            };
+                            let err = String::from_utf8_lossy(&out.stderr);
+                            let tail: String = err.lines().rev().take(3).collect::<Vec<_>>().join(" | ");
+                            match open {
+                                Some(i) => local.violations.push(Violation::new(
+                                    format!("the process {} while case {} of stream {} was running ({})", how, i, stream, tail),
+                                    json!({"kind": "regen", "stream": stream, "index": i, "seed": ctx.seed}),
+                                )),
+                                None => local.harness_errors.push(format!(
+                                    "worker {}..{} of stream {} {} outside a case ({})",
+                                    from, to, stream, how, tail
+                                )),
+                            }
+                        }
+                    }
+                }
+                if local.violations.len() >= MAX_VIOLATIONS_KEPT || !local.harness_errors.is_empty() {
+                    stop.store(true, Ordering::Relaxed);
+                }
+                result.lock().unwrap().merge(local);
+            });
+        }
+    });
+    result.into_inner().unwrap()
+}
